@@ -16,25 +16,28 @@ Step(A) == l <= Len(Trace) /\ A /\ l' = l + 1
 
 CurP == [chain |-> chain', disk |-> disk', buf |-> buf', bufN |-> bufN', kv |-> kv', ids |-> ids', hist |-> hist']
 
+(* the observation ev logged by the harness must match state record s with journal j *)
+ObsRec(ev, s, j) ==
+  /\ ev.disk = s.disk
+  /\ ev.pid = s.kv.pid
+  /\ ev.kvw = s.kv.world
+  /\ ev.bufn = s.bufN
+  /\ ev.view = Over(s.kv.world, s.buf)
+  /\ ev.chain = [i \in 1..Len(s.chain) |-> s.chain[i].root]
+  /\ ev.tail = s.hist.tail /\ ev.head = s.hist.head
+  /\ \A i \in 1..Len(ev.recs) :
+        LET r == ev.recs[i] IN
+          /\ r.id \in DOMAIN s.hist.recs
+          /\ s.hist.recs[r.id] = [parent |-> r.parent, root |-> r.root, prev |-> r.prev]
+  /\ \A i \in 1..Len(ev.ids) :
+        LET x == ev.ids[i] IN
+          IF x.id = -1 THEN x.w \notin DOMAIN s.ids ELSE x.w \in DOMAIN s.ids /\ s.ids[x.w] = x.id
+  /\ \A i \in 1..Len(ev.rec) : ev.rec[i].ok = RecoverableIn(s, ev.rec[i].w)
+  /\ ev.jr = IF j.has THEN [has |-> TRUE, base |-> j.base, disk |-> j.disk, n |-> Len(j.chain)]
+                      ELSE [has |-> FALSE]
+
 (* the observation logged with every event must match the successor state *)
-Obs ==
-  /\ Ev.disk = disk'
-  /\ Ev.pid = kv'.pid
-  /\ Ev.kvw = kv'.world
-  /\ Ev.bufn = bufN'
-  /\ Ev.view = Over(kv'.world, buf')
-  /\ Ev.chain = [i \in 1..Len(chain') |-> chain'[i].root]
-  /\ Ev.tail = hist'.tail /\ Ev.head = hist'.head
-  /\ \A i \in 1..Len(Ev.recs) :
-        LET r == Ev.recs[i] IN
-          /\ r.id \in DOMAIN hist'.recs
-          /\ hist'.recs[r.id] = [parent |-> r.parent, root |-> r.root, prev |-> r.prev]
-  /\ \A i \in 1..Len(Ev.ids) :
-        LET x == Ev.ids[i] IN
-          IF x.id = -1 THEN x.w \notin DOMAIN ids' ELSE x.w \in DOMAIN ids' /\ ids'[x.w] = x.id
-  /\ \A i \in 1..Len(Ev.rec) : Ev.rec[i].ok = RecoverableIn(CurP, Ev.rec[i].w)
-  /\ Ev.jr = IF jr'.has THEN [has |-> TRUE, base |-> jr'.base, disk |-> jr'.disk, n |-> Len(jr'.chain)]
-                        ELSE [has |-> FALSE]
+Obs == ObsRec(Ev, CurP, jr')
 
 TReset ==
   Step(/\ Ev.op = "reset"
